@@ -30,7 +30,7 @@ PY_KEYWORDS = ["def", "from", "lambda", "pass", "is", "in", "global", "with", "y
                "except", "finally", "nonlocal", "None", "True", "False"]
 INT_WIDTHS = ["int", "unsigned int", "short", "unsigned short", "long", "unsigned long", "long long",
               "unsigned long long", "signed char", "unsigned char"]
-FEATURES = ["ovset", "constpair", "kwnames", "coerce", "setitem", "ops", "nested", "enumneg", "seqprop", "ovset2"]
+FEATURES = ["ovset", "constpair", "kwnames", "coerce", "setitem", "ops", "nested", "enumneg", "seqprop", "ovset2", "inquiry", "ops"]
 
 
 def P(name, t, default=None, default_value=None):
@@ -171,7 +171,110 @@ class NatGen(libgen.Gen):
                     f["overload_set"] = name
                 self.model["mi_group"]["sets"].append(name)
         self.free_extra.append(later)
+        self.add_proto_classes()
         self.in_extra = False
+
+    # ---- dedicated classes for the attribute / iterator / named item / three-way comparison / stream protocols
+    def clean_class(self, forbid):
+        """a small stand-alone class none of whose libgen-made members has a name in forbid (retry with rollback)"""
+        for attempt in range(12):
+            nh, nc, ncl, nen, nmen = len(self.h), len(self.cx), len(self.model["classes"]), len(self.enums), len(self.model["enums"])
+            c = self.small_class([])
+            names = {m["name"] for m in c["methods"]}
+            if not (names & forbid) and not c["properties"] and not c["seqs"] and not c["members"]:
+                return c
+            del self.h[nh:], self.cx[nc:], self.model["classes"][ncl:], self.enums[nen:], self.model["enums"][nmen:]
+            del self.classes[c["qname"]]
+        return None
+
+    def splice(self, cls, fn):
+        """run fn() and put the header lines it emits into the PUBLISHED section of the (already closed) class"""
+        at = next(i for i, l in enumerate(self.h) if l == f"  unsigned long long st_{cls['name']};") - 1
+        assert self.h[at] == "public:", self.h[at]
+        extra = self.capture(fn)
+        self.h[at:at] = extra
+
+    def raw_method(self, cls, decl, head, body, eid, name, op, params=(), ret=None, const=True, **kw):
+        """a hand-written published method (declaration line, definition head, body lines)"""
+        self.h.append("  " + decl)
+        self.cx.append(head + " {")
+        self.cx += body
+        self.cx.append("}")
+        f = dict(eid=eid, name=name, qname=cls["qname"] + "::" + name, cls=cls["qname"], kind="method", const=const,
+                 virtual=False, static=False, params=list(params), ret=ret or T("void"), doc=None, lib=self.name,
+                 ret_owner="value", operator=op, feature="proto")
+        f.update(kw)
+        cls["methods"].append(f)
+        return f
+
+    def add_proto_classes(self):
+        r = self.r
+        OPN = {"operator []", "size", "operator ==", "operator <", "operator int", "operator ()"}
+        sref = T("string", ref=True)
+        # A: attribute protocol + compare_to + get_hash
+        a = self.clean_class(OPN)
+        if a is not None:
+            def mk_a():
+                for nm, op, ps, ret, const in (
+                        ("__getattr__", "getattr", [P("name", sref)], r.choice([T("int", c="int"), T("string", ref=False)]), True),
+                        ("__setattr__", "setattr", [P("name", sref), P("value", r.choice([T("int", c="int"), T("float", c="double")]))], T("void"), False),
+                        ("__delattr__", "delattr", [P("name", sref)], T("void"), False)):
+                    self.emit(a, "method", nm, ps, ret=ret, const=const, ind="  ", feature="proto")["operator"] = op
+                f = self.emit(a, "method", "compare_to", [P("other", T("obj", cls=a["qname"], mode="cref"))], ret=T("int", c="int"),
+                              const=True, ind="  ", feature="proto")
+                f["cmp_to"] = True
+                self.const_handles(a, "  ")
+            self.splice(a, mk_a)
+            a["attr_class"] = True
+            self.feat("proto-attr")
+        # B: named item methods through the sequence protocol (+ __contains__ as a plain method)
+        b = self.clean_class(OPN)
+        if b is not None:
+            it = T("int", c="int")
+
+            def mk_b():
+                n = self.emit(b, "method", "__len__", [], ret=it, const=True, ind="  ", feature="proto")
+                self.fix_body_return(n, "4")
+                n["operator"] = "len"
+                self.emit(b, "method", "__getitem__", [P("i", it)], ret=r.choice([it, T("float", c="double")]), const=True, ind="  ",
+                          feature="proto")["operator"] = "getitem_n"
+                self.emit(b, "method", "__setitem__", [P("i", it), P("v", r.choice([it, T("float", c="double")]))], ret=T("void"),
+                          const=False, ind="  ", feature="proto")["operator"] = "setitem_n"
+                self.emit(b, "method", "__delitem__", [P("i", it)], ret=T("void"), const=False, ind="  ",
+                          feature="proto")["operator"] = "delitem_n"
+                self.emit(b, "method", "__contains__", [P("x", it)], ret=T("bool"), const=True, ind="  ", feature="proto")
+                self.const_handles(b, "  ")
+            self.splice(b, mk_b)
+            b["named_items"] = "sequence"
+            self.feat("proto-items-seq")
+        # C: named item methods through the mapping protocol (string keys), iterator protocol, output / write
+        c = self.clean_class(OPN | {"next"})
+        if c is not None:
+            q, name = c["qname"], c["name"]
+            it = T("int", c="int")
+
+            def mk_c():
+                self.emit(c, "method", "__getitem__", [P("key", sref)], ret=it, const=True, ind="  ",
+                          feature="proto")["operator"] = "getitem_n"
+                self.emit(c, "method", "__setitem__", [P("key", sref), P("v", it)], ret=T("void"), const=False, ind="  ",
+                          feature="proto")["operator"] = "setitem_n"
+                self.emit(c, "method", "__delitem__", [P("key", sref)], ret=T("void"), const=False, ind="  ",
+                          feature="proto")["operator"] = "delitem_n"
+                e1, e2 = self.new_eid(), self.new_eid()
+                self.raw_method(c, f"{name} *__iter__();", f"{q} *{q}::__iter__()",
+                                [f"  vf::Ev vf_e({e1}, this);", f"  vf_it_{name} = 0;", '  vf_e.obj("r", this);', "  return this;"],
+                                e1, "__iter__", "iter", ret=T("obj", cls=q, mode="ptr"), const=False, returns="this")
+                self.raw_method(c, f"{name} *__next__();", f"{q} *{q}::__next__()",
+                                [f"  vf::Ev vf_e({e2}, this);",
+                                 f"  {q} *vf_r = vf_it_{name} < 3 ? {q}::vf_pool(vf_it_{name}) : nullptr;", f"  ++vf_it_{name};",
+                                 '  vf_e.obj("r", vf_r);', "  return vf_r;"],
+                                e2, "__next__", "next", ret=T("obj", cls=q, mode="ptr"), const=False)
+            self.splice(c, mk_c)
+            c.setdefault("raw_public", []).append(f"#ifndef CPPPARSER\n  int vf_it_{name} = 0;\n#endif")
+            c["named_items"] = "mapping"
+            c["iter_class"] = True
+            self.feat("proto-items-map")
+            self.feat("proto-iter")
 
     def plain_class(self, ns):
         """a small class generated by libgen only (used as nested class)"""
@@ -438,7 +541,7 @@ class NatGen(libgen.Gen):
         """Python type slots are inherited as a whole (a base's mapping slot even shadows a derived class's sequence
         slot), while a C++ operator [] merely hides the base's: item assignment is only generated where neither the
         class nor any ancestor or descendant declares operator [] / size()"""
-        if cls.get("item_array"):
+        if cls.get("item_array") or cls.get("named_items"):
             return False
         q = cls["qname"]
 
@@ -447,7 +550,7 @@ class NatGen(libgen.Gen):
                 yield b["qname"]
                 yield from anc(b["qname"])
         related = {q} | set(anc(q)) | {c["qname"] for c in self.classes.values() if q in set(anc(c["qname"]))}
-        return not any(m["name"] in ("operator []", "size") for r_ in related for m in self.classes[r_]["methods"])
+        return not any(m["name"] in ("operator []", "size", "__getitem__", "__len__") for r_ in related for m in self.classes[r_]["methods"])
 
     def const_handles(self, cls, ind):
         """sources of const views of an instance (methods returning this as const K* / const K&)"""
@@ -516,29 +619,128 @@ class NatGen(libgen.Gen):
         self.cx.append(f'extern "C" int vf_item_{cid}(void *p, int i) {{ return (({q} *)p)->{arr}[i & 3]; }}')
 
     # ---- more operators
+    # (no binary operator &: libgen's own bodies take addresses with &x, which an overloaded operator & in two bases
+    # makes ambiguous; &= is harmless)
+    BINOPS = ["+", "-", "*", "/", "%", "<<", ">>", "|", "^"]
+
     def x_ops(self, cls, ind):
         r = self.r
         q = cls["qname"]
         have = {m["name"] for m in cls["methods"]}
         selfc = T("obj", cls=q, mode="cref")
+        selfv = T("obj", cls=q, mode="val")
         table = [("operator !=", "!=", T("bool"), [P("rhs", selfc)], True),
                  ("operator <=", "<=", T("bool"), [P("rhs", selfc)], True),
                  ("operator >", ">", T("bool"), [P("rhs", selfc)], True),
                  ("operator >=", ">=", T("bool"), [P("rhs", selfc)], True),
                  ("operator ==", "==", T("bool"), [P("rhs", selfc)], True),
                  ("operator <", "<", T("bool"), [P("rhs", selfc)], True),
-                 ("operator -", "-", T("obj", cls=q, mode="val"), [P("rhs", selfc)], True),
-                 ("operator *", "*", T("obj", cls=q, mode="val"), [P("k", T("int", c="int"))], True),
-                 ("operator +=", "+=", T("obj", cls=q, mode="ref"), [P("rhs", selfc)], False),
                  ("operator ()", "()", T("int", c="long"), [P("x", T("int", c="int")), P("y", T("float", c="double"))], False)]
-        for nm, op, ret, ps, const in r.sample(table, r.choice([3, 4, 5])):
-            if nm in have or (nm == "operator -" and any(m.get("operator") == "neg" for m in cls["methods"])):
+        for nm, op, ret, ps, const in r.sample(table, r.choice([2, 3, 4])):
+            if nm in have:
                 continue
             have.add(nm)
             f = self.emit(cls, "method", nm, ps, ret=ret, const=const, ind=ind, feature="ops")
             f["operator"] = op
-            if op == "+=":
+
+        def rhs_kinds(op):
+            # an integer right operand of / and /= only reaches the Python 2 nb_divide slot (documented in the
+            # generator: "different semantics than in C++"): not generated
+            pool = ["self", "f"] if op in ("/", "/=") else ["self", "i", "f"]
+            return r.sample(pool, r.choice([1, 2, 2, len(pool)]) if len(pool) > 2 else r.choice([1, 2]))
+
+        def rhs(kind, j):
+            t = selfc if kind == "self" else T("int", c=r.choice(["int", "long", "short"])) if kind == "i" else T("float", c="double")
+            return [P(f"rhs{j}_{r.randrange(100)}", t)]
+        # binary arithmetic / bitwise operators, each an overload set over {class, int, double} right operands
+        for op in r.sample(self.BINOPS, r.choice([3, 4, 5])):
+            nm = "operator " + op
+            if nm in have or (op == "-" and any(m.get("operator") == "neg" for m in cls["methods"])) \
+                    or (op == "+" and any(m.get("operator") == "pos" for m in cls["methods"])):
+                continue
+            have.add(nm)
+            for j, kind in enumerate(rhs_kinds(op)):
+                ret = selfv if kind == "self" or r.random() < 0.7 else r.choice([T("int", c="int"), T("float", c="double")])
+                f = self.emit(cls, "method", nm, rhs(kind, j), ret=ret, const=True, ind=ind, feature="ops")
+                f["operator"] = op
+                f["overload_set"] = nm
+        # in-place operators (return *this)
+        for op in r.sample([o + "=" for o in self.BINOPS + ["&"]], r.choice([2, 3, 4])):
+            nm = "operator " + op
+            if nm in have:
+                continue
+            have.add(nm)
+            for j, kind in enumerate(rhs_kinds(op)):
+                f = self.emit(cls, "method", nm, rhs(kind, j), ret=T("obj", cls=q, mode="ref"), const=False, ind=ind, feature="ops")
+                f["operator"] = op
+                f["overload_set"] = nm
                 self.force_return_this(cls, f)
+        # unary operators
+        if "operator ~" not in have and r.random() < 0.6:
+            have.add("operator ~")
+            self.emit(cls, "method", "operator ~", [], ret=selfv, const=True, ind=ind, feature="ops")["operator"] = "inv"
+        if "operator -" not in have and r.random() < 0.5:
+            have.add("operator -")
+            self.emit(cls, "method", "operator -", [], ret=selfv, const=True, ind=ind, feature="ops")["operator"] = "neg"
+        if "operator +" not in have and r.random() < 0.3:
+            have.add("operator +")
+            self.emit(cls, "method", "operator +", [], ret=selfv, const=True, ind=ind, feature="ops")["operator"] = "pos"
+        # named number-protocol methods
+        named = [("__pow__", "pow", True), ("__ipow__", "ipow", False), ("__floordiv__", "floordiv", True),
+                 ("__radd__", "radd", True), ("__rsub__", "rsub", True), ("__rmul__", "rmul", True)]
+        for nm, op, const in r.sample(named, r.choice([2, 3, 4])):
+            if nm in have:
+                continue
+            have.add(nm)
+            kinds = r.sample(["i", "f"], r.choice([1, 2]))
+            for j, kind in enumerate(kinds):
+                if op == "ipow":
+                    f = self.emit(cls, "method", nm, rhs(kind, j), ret=T("obj", cls=q, mode="ref"), const=False, ind=ind, feature="ops")
+                    self.force_return_this(cls, f)
+                else:
+                    f = self.emit(cls, "method", nm, rhs(kind, j), ret=selfv if r.random() < 0.7 else T("float", c="double"),
+                                  const=True, ind=ind, feature="ops")
+                f["operator"] = op
+                f["overload_set"] = nm
+
+    def emit_cast(self, cls, ind, ct, op):
+        """operator <ct>() const (declared without a return type)"""
+        t = T("bool") if ct == "bool" else T("float", c=ct)
+        f = self.gen_function(cls, "method", name="operator " + ct, ret=t, params=[], const=True, indent=ind)
+        decl = self.h.pop()
+        self.h.append(decl.replace(f"{ct} operator {ct}", f"operator {ct}"))
+        q = cls["qname"]
+        i = len(self.cx) - 1
+        while not self.cx[i].startswith(f"{ct} {q}::operator {ct}"):
+            i -= 1
+        self.cx[i] = self.cx[i].replace(f"{ct} {q}::operator {ct}", f"{q}::operator {ct}")
+        f.update(typecast=True, operator=op, feature="inquiry")
+        cls["methods"].append(f)
+        return f
+
+    # ---- inquiries: truth value, hash, repr / str, float conversion
+    def x_inquiry(self, cls, ind):
+        r = self.r
+        have = {m["name"] for m in cls["methods"]}
+        x = r.random()
+        if x < 0.4:
+            self.emit(cls, "method", "__bool__", [], ret=T("bool"), const=True, ind=ind, feature="inquiry")["operator"] = "bool"
+        elif x < 0.8:
+            self.emit_cast(cls, ind, "bool", "bool")
+        x = r.random()
+        if x < 0.4:
+            self.emit(cls, "method", "__hash__", [], ret=T("int", c="int"), const=True, ind=ind, feature="inquiry")["operator"] = "hash"
+        elif x < 0.8:
+            f = self.emit(cls, "method", "get_hash", [], ret=T("int", c="int"), const=True, ind=ind, feature="inquiry")
+            f["hash_method"] = True
+        if r.random() < 0.6:
+            self.emit(cls, "method", "__repr__", [], ret=T("string", ref=False), const=True, ind=ind, feature="inquiry")["operator"] = "repr"
+        if r.random() < 0.6:
+            self.emit(cls, "method", "__str__", [], ret=T("string", ref=False), const=True, ind=ind, feature="inquiry")["operator"] = "str"
+        if r.random() < 0.6:
+            self.emit_cast(cls, ind, "double", "float")
+        if r.random() < 0.4 and not any(m.get("operator") == "cast" for m in cls["methods"]):
+            self.emit(cls, "method", "__int__", [], ret=T("int", c="int"), const=True, ind=ind, feature="inquiry")["operator"] = "cast"
 
     def x_nested(self, cls, ind):
         pass
@@ -614,6 +816,8 @@ class NatGen(libgen.Gen):
                 c.setdefault("features", []).append("setitem")
                 self.feat("setitem")
                 break
+        i = self.h.index("#include <string>")
+        self.h.insert(i + 1, "#include <ostream>")
         # raw public members requested by extras (arrays for item assignment)
         for c in self.model["classes"]:
             for line in c.get("raw_public", []):
